@@ -26,7 +26,10 @@ API (import from a plugin props/cNN.py)
 
 Case (JSON):  {"t0": "n/d", "codes": [[instr...]...], "plan": [item...], "num": "float"|"fraction"}
   reg    ["L", i] local to a process instance (L0 = its argument) | ["G", i] shared (closure variable)
-  vexp   ["none"] | ["int", z] | ["reg", reg] | ["user", tag, z]          (user = exception UserExc<tag>(z))
+  vexp   ["none"] | ["int", z] | ["reg", reg] | ["user", tag, z]          (user = exception UserExc<tag>(z); tags 100.. are BUILTIN
+         types from user code, BUILTIN_EXC[tag-100](z): AttributeError IndexError KeyError LookupError TypeError ValueError RuntimeError
+         AssertionError ZeroDivisionError OSError ArithmeticError NotImplementedError RecursionError StopAsyncIteration StopIteration;
+         rand_exc(rng, p_builtin) draws one; StopIteration only through fail() with catching waiters -- PEP 479)
   instr  ["timeout", dst, "n/d", vexp] ["event", dst] ["succeed", e, vexp] ["fail", e, vexp]
          ["spawn", dst, code, vexp] ["interrupt", p, vexp] ["cond", dst, all?, [reg...]]   (2 operands: written & / |)
          ["probe", e, n] ["query", dst, q, e] (q in triggered processed ok value alive defused) ["now", dst] ["peek", dst]
@@ -122,11 +125,33 @@ class Coded(Exception):
 
 _USER = {}
 
+# BUILTIN exception types raised / failed / thrown in by USER code: reserved tags 100.. of ["user", tag, arg] (the model treats
+# exception classes as opaque tags: EUser tag).  A user-made instance carries ONE int argument, which is how the canonicaliser tells
+# it from an exception of the same type raised by the kernel itself (those carry a message).  StopIteration is not in
+# BUILTIN_TAGS_BODY: raised or re-raised inside a generator it becomes RuntimeError (PEP 479); use it with fail() and catching waiters.
+BUILTIN_EXC = [AttributeError, IndexError, KeyError, LookupError, TypeError, ValueError, RuntimeError, AssertionError,
+               ZeroDivisionError, OSError, ArithmeticError, NotImplementedError, RecursionError, StopAsyncIteration, StopIteration]
+BUILTIN_TAG = {c: 100 + i for i, c in enumerate(BUILTIN_EXC)}
+BUILTIN_TAGS_BODY = [100 + i for i, c in enumerate(BUILTIN_EXC) if c is not StopIteration]
+TAG_STOPITERATION = BUILTIN_TAG[StopIteration]
+
 
 def user_exc(tag):
+    if 100 <= tag < 100 + len(BUILTIN_EXC):
+        return BUILTIN_EXC[tag - 100]
     if tag not in _USER:
         _USER[tag] = type(f"UserExc{tag}", (Exception,), {"tag": tag})
     return _USER[tag]
+
+
+def rand_exc(rng, p_builtin=0.4):
+    """["user", tag, arg]: a user-defined class (tags 0..3) or, with probability p_builtin, a builtin type (AttributeError first:
+    the types named by `except` clauses inside onl/sim are drawn more often)"""
+    if rng.random() < p_builtin:
+        hot = [BUILTIN_TAG[c] for c in (AttributeError, IndexError, ValueError, RuntimeError, TypeError)]
+        tag = rng.choice(hot) if rng.random() < 0.6 else rng.choice(BUILTIN_TAGS_BODY)
+        return ["user", tag, rng.randint(0, 9)]
+    return ["user", rng.randint(0, 3), rng.randint(0, 9)]
 
 
 class HarnessAbort(BaseException):
@@ -241,6 +266,8 @@ class Harness:
             return ["Interrupt", [self.conv(a) for a in e.args]]
         if hasattr(type(e), "tag") and type(e).__name__.startswith("UserExc"):
             return [["User", type(e).tag], [self.conv(a) for a in e.args]]
+        if type(e) in BUILTIN_TAG and len(e.args) == 1 and isinstance(e.args[0], int) and not isinstance(e.args[0], bool):
+            return [["User", BUILTIN_TAG[type(e)]], [["int", e.args[0]]]]     # a builtin type raised by user code
         for cls, pyc in PYCLS.items():
             if type(e) is pyc:
                 msg = str(e)
@@ -1066,6 +1093,7 @@ DEFAULT_KNOBS = {
     "plan_run": 4, "plan_num": 3, "plan_ev": 2, "plan_steps": 2, "plan_mixed": 2,
     "p_top_exec": 0.3,               # module-level triggers / interrupts between plan items
     "p_fraction": 0.1,               # drive the kernel with fractions.Fraction instead of int/float
+    "p_builtin_exc": 0.35,           # raise / fail with a BUILTIN exception type (AttributeError, IndexError, ...) instead of UserExc<k>
 }
 
 
@@ -1119,7 +1147,7 @@ class _Gen:
         return ["reg", ["L", self.rng.choice(list(locals_))]]
 
     def userexc(self):
-        return ["user", self.rng.randint(0, 3), self.rng.randint(0, 9)]
+        return rand_exc(self.rng, self.k.get("p_builtin_exc", 0.35))
 
     def mode(self):
         r = self.rng.random()
